@@ -380,6 +380,12 @@ func (c *Collection) WriteCas(key string, exp Exp, cas CAS, val any, opt sgbucke
 			return nil, err
 		}
 		casOut = newCas
+		if (opt & sgbucket.Append) != 0 {
+			// the event carries the whole body, not just the appended bytes
+			if raw, _, _, err = c.getRaw(txn, key); err != nil {
+				return nil, err
+			}
+		}
 		return &event{
 			key:        key,
 			value:      raw,
